@@ -46,6 +46,16 @@ def e2_slices():
     glr = slicer.read(GLRPARSER)
     blk = slicer.block_after(glr, r"fn find_lookaheads\s*\(", r"if !tokens\.is_empty\(\)", "find_lookaheads/selection")
     out["glr_select"] = ("{\nif !tokens.is_empty() " + blk + "\ntokens\n}\n", GLRPARSER)
+    b = slicer.read(BUILDER)
+    out["meta_inherit"] = (
+        "{\n" + slicer.region(b, r"fn extract_productions_and_symbols\s*\(", r"// Inherit meta-data from Rule\.", r"new_production\.nopse = true;\s*\}", "extract_productions_and_symbols/meta inheritance") + "\n}\n",
+        BUILDER,
+    )
+    a = slicer.read(ACTIONS)
+    fns = []
+    for f in ("regex_term", "int_const", "bool_const", "str_const", "annotation"):
+        fns.append(slicer.fn_whole(a, r"pub fn %s\s*\(" % f, "rustemo_actions/" + f))
+    out["tokval_fns"] = ("\n".join(fns) + "\n", ACTIONS)
     return out
 
 
